@@ -998,6 +998,7 @@ func propC16(c *Ctx) string {
 	}
 	// blocking take has both escapes (also C14/TOKENTIMEOUT)
 	c14TokenTimeout(c, v, "C16")
+	c16DeqLock(c, v)
 	// resend loop
 	cin := c.traces(conn)
 	okR, nR := true, 0
@@ -1522,4 +1523,82 @@ func c13TermGuard(c *Ctx, v *vocab) {
 	}
 	r.Check(tf.Name+":delete(activeClients[id]) only if it is this client", ok && n > 0, tf.Decl.Pos(), len(in.Traces),
 		"the id is unregistered without checking that it belongs to the terminating client: a contender that failed Setup unregisters the live owner of the id", c.witness(w)...)
+}
+
+// c16DeqLock: MemoryBackend.Publish waits, holding the global mutex, for room in the queue of an online
+// subscriber. The only consumer of that queue is the subscriber's dequeuer goroutine; if anything that goroutine
+// runs per iteration (Backend.Dequeue and whatever it calls, resolved through the Backend/Session interfaces to the
+// in-repo implementations) acquires the global mutex, producer and consumer wait for each other and delivery
+// stops although the client acknowledges everything.
+func c16DeqLock(c *Ctx, v *vocab) {
+	r := c.Rule("C16/DEQLOCK", "LOCK+REACH", "nothing reachable from the dequeuer goroutine (Backend.Dequeue implementations included) acquires MemoryBackend.globalMutex: Publish holds it while it waits for room in that goroutine's queue", 1)
+	gm := c.P.Field("broker", "MemoryBackend", "globalMutex")
+	deqs := c.funcCalling("broker", v.bkDequeue)
+	if gm == nil || len(deqs) != 1 {
+		r.Undecided("dequeuer", 0, "globalMutex or the function calling Backend.Dequeue not identified")
+		return
+	}
+	reach := map[*types.Func]*FuncInfo{}
+	var via func(fi *FuncInfo)
+	via = func(fi *FuncInfo) {
+		if reach[fi.Obj] != nil || fi.Decl.Body == nil {
+			return
+		}
+		reach[fi.Obj] = fi
+		ast.Inspect(fi.Decl.Body, func(m ast.Node) bool {
+			call, ok := m.(*ast.CallExpr)
+			if !ok {
+				return true
+			}
+			g, ok := typeutilCallee(fi.Pkg.TypesInfo, call).(*types.Func)
+			if !ok {
+				return true
+			}
+			if h := c.P.ByObj[g]; h != nil {
+				via(h)
+				return true
+			}
+			// interface method of the broker package: all in-repo implementations
+			if sig, ok := g.Type().(*types.Signature); ok && sig.Recv() != nil {
+				if named, ok := sig.Recv().Type().(*types.Named); ok && named.Obj().Pkg() != nil && strings.HasSuffix(named.Obj().Pkg().Path(), "/broker") {
+					if _, isI := named.Underlying().(*types.Interface); isI {
+						for _, impl := range c.implementations("broker", named.Obj().Name(), g.Name()) {
+							via(impl)
+						}
+					}
+				}
+			}
+			return true
+		})
+	}
+	via(deqs[0])
+	var names []string
+	for _, fi := range reach {
+		names = append(names, fi.Name)
+	}
+	sort.Strings(names)
+	sawDequeueImpl := false
+	var lockers []string
+	for _, n := range names {
+		fi := c.P.Func(n)
+		c.Touch(n)
+		if fi.Obj.Name() == "Dequeue" && fi != deqs[0] {
+			sawDequeueImpl = true
+		}
+		h := &Interp{P: c.P, Info: fi.Pkg.TypesInfo}
+		ast.Inspect(fi.Decl.Body, func(m ast.Node) bool {
+			if call, ok := m.(*ast.CallExpr); ok {
+				if sel, ok := ast.Unparen(call.Fun).(*ast.SelectorExpr); ok && (sel.Sel.Name == "Lock" || sel.Sel.Name == "RLock") && h.objOf(sel.X) == types.Object(gm) {
+					lockers = append(lockers, n+" @"+c.P.Pos(call.Pos()))
+				}
+			}
+			return true
+		})
+	}
+	if !sawDequeueImpl {
+		r.Undecided(deqs[0].Name+":reachable Dequeue implementation", deqs[0].Decl.Pos(), "no in-repo implementation of Backend.Dequeue is reachable (call graph resolution failed)")
+		return
+	}
+	r.Check(deqs[0].Name+":no globalMutex on the consumer side", len(lockers) == 0, deqs[0].Decl.Pos(), len(reach),
+		"the consumer side of the session queues acquires the global mutex ("+strings.Join(lockers, "; ")+") while Publish may hold it waiting for room in the same queue: producer and consumer wait for each other")
 }
